@@ -116,8 +116,14 @@ def check_dropout_shapes(name, kw, case, viol):
     try:
         res, data = run_dropout(name, kw, case['shape'], case['channels'], case['seed'])
     except Exception as e:  # noqa
-        if isinstance(e, ValueError) and name in ('CoarseDropout', 'GridDropout'):
-            return          # hole / grid limits that do not fit this volume: a documented rejection
+        if isinstance(e, ValueError) and name == 'GridDropout' and any(
+                m in str(e) for m in ('Max unit size should be', 'Grid size limits must be', 'must be between 1 and image')):
+            return          # grid limits that do not fit this volume: a documented rejection (the library's own messages)
+        if isinstance(e, ValueError) and name == 'CoarseDropout':
+            sizes = [kw.get(k, 8) for k in ('max_height', 'max_width', 'max_depth')]
+            if all(isinstance(v, int) for v in sizes) and any(v > n for v, n in zip(sizes, case['shape'])):
+                return      # a hole size in voxels larger than this volume: no position to draw (sizes given as
+                            # fractions always fit, whatever the shape)
         try:
             run_dropout(name, kw, [8, 8, 8], None, case['seed'])
         except Exception:  # noqa -- the configuration does not run at all: C08's question
